@@ -1,8 +1,13 @@
-"""C05 - canonization certificates (see C04.py for the engine)."""
-from .C04 import analyse
+"""C05 - canonization certificates (see C04.py for the engine).
+C05.I/C05.K: path-policy analysis of the walks on the hard-coded sequences; C05.Q: for n = 7 (8 thorough) the
+run-time generated sequences handed to the decoder are the ones the walk used and are closed cycles (the decoder
+tracks the complementation mask per position, which is only valid if every flip cycle returns to the start
+before the next swap)."""
+from .C04 import analyse, generated
 
 LEVEL = "other"
 
 
 def run(chk):
     analyse(chk, "C05")
+    generated(chk, "C05.Q")
